@@ -134,3 +134,15 @@ package service
 //@   flag checks=-index,-assert
 //@   at sql_select.Ge lower-date-covers-window-start: isDateCol(arg0) ==> fmtDay <= fdiv(start.UnixNano(), 86400000000000)
 //@   at sql_select.Le upper-date-covers-window-end: isDateCol(arg0) ==> fmtDay >= fdiv(end.UnixNano(), 86400000000000)
+
+// Spans read back from the database are decoded in a goroutine without recover: a
+// stored parent id of any length must not make the hex decoder write past its
+// 8-byte buffer.
+//@ func decodeParentId [C12]
+//@   modifies nothing
+//@ func parseOTLPJson
+//@   modifies nothing
+//@ func parseOTLPPB
+//@   modifies nothing
+//@ func parseOTLP [C12]
+//@   flag checks=-assert
